@@ -277,6 +277,10 @@ func c03RouteHop(c *Ctx, f *ssa.Function) {
 	rets := returnsUnder(f, keepN)
 	good := len(rets) > 0
 	for _, r := range rets {
+		if len(r.Results) != 4 {
+			good = false
+			continue
+		}
 		if !allVals(valuesUnder(f, r.Results[3], keepN), func(v ssa.Value) bool { return w.isFreshError(v) || isResultOf(v, uc, 1) }) {
 			good = false
 		}
